@@ -178,7 +178,12 @@ def rule_own_connections(repo, chk):
     sk = cp.params[1]
     builds = [n for n in g.nodes if n.kind == 'stmt' and isinstance(n.ast, ast.Assign) and isinstance(n.ast.targets[0], ast.Subscript) and 'protocols' in src(n.ast.targets[0].value)]
     need(builds, 'C19.p: the connect handler builds no protocol')
-    own = pat.test_edge(lambda tt, pol: (lambda fc: fc is not None and fc[0] == sk and fc[1] == 'in' and fc[2].startswith('self.server.'))(pat.compare_fact(tt, pol)))
+    def own(e2):
+        # `sock in self.server._clients`, the transport possibly through a local (`server = self.server`)
+        if e2.src.kind != 'test' or e2.kind not in ('T', 'F'):
+            return False
+        fc = pat.compare_fact(e2.src.ast, e2.kind)
+        return fc is not None and fc[0] == sk and fc[1] == 'in' and pat.expand_alias(cp, e2.src, fc[2]).startswith('self.server.')
     for b in builds:
         q = pat.guarded_by(g, b, own)
         chk.ob('p', cp.ref, 'a protocol (with this server\'s firewalls) is built only for a connection of this server\'s own transport', q is None, loc(cp, b.ast),
@@ -218,8 +223,19 @@ def rule_reply_total(repo, chk):
             p = pat.escapes_region(g, h, pat.region(g, 'except', h.ast), lambda m: m in rets, exits=('exit', 'raise'))
             if p is not None or not rets:
                 ok, path = False, p
-            txt = ' '.join(src(m.ast) for m in pat.region(g, 'except', h.ast) if m.kind == 'stmt')
-            if "'errors': True" not in txt.replace('"', "'") or 'node_call_id' not in txt:
+            # the reply built in the clause: a document whose `errors` entry is True and whose `id` is the id of the call (entries may be given through locals)
+            def entry(dct, key, node):
+                for k_, v_ in zip(dct.keys, dct.values):
+                    if isinstance(k_, ast.Constant) and k_.value == key:
+                        if isinstance(v_, ast.Name):
+                            ds = Q.reaching_defs(g, node, v_.id)
+                            return [d.ast.value for d in ds if d.kind == 'stmt' and isinstance(d.ast, ast.Assign)]
+                        return [v_]
+                return []
+            docs = [(m, w) for m in pat.region(g, 'except', h.ast) if m.kind == 'stmt' for w in ast.walk(m.ast) if isinstance(w, ast.Dict)]
+            good = [1 for m, w in docs if (lambda es: bool(es) and all(pat.is_const(x, True) for x in es))(entry(w, 'errors', m))
+                    and (lambda ids: bool(ids) and all('node_call_id' in src(x) for x in ids))(entry(w, 'id', m))]
+            if not good:
                 ok = False
     chk.ob('o', f.ref, 'a result that json cannot carry is answered with an error reply for the same call (the sender is not left waiting)', ok, loc(f, dumps[0].ast),
            path=pat.path_lines(path) if path else None, discr='unencodable-result-answered')
